@@ -15,8 +15,8 @@ def chk(pid, engine, cat, text, note, technique, design, thorough=True, replay=N
         "level_note": note, "technique": technique}
 
 chk("C20","E1-loom","model_checking",
-  "Every interleaving (loom DPOR, C11 memory model; preemption-bounded where stated per model in the evidence) of 1-3 producer threads, a consumer, stop() and source drop on the real spsc.rs/track.rs source is executed and checked against a FIFO / no-dup / drain-then-EOS oracle plus loom's data-race and deadlock detection.",
-  "Trusted: loom's scheduler and memory model; a Notify shim with tokio's documented semantics; Arc refcounts are std (destruction ordered by joins). Bounds: capacities 1-4, <=3 producers, <=3 sends each; preemption bounds per model are listed in the evidence.",
+  "Every interleaving (loom DPOR, C11 memory model; preemption-bounded where stated per model in the evidence) of 1-4 producer threads (send / try_send / send_many on shared or cloned sources), a consumer, stop() and source drop on the real spsc.rs/track.rs source is executed and checked against a FIFO / no-dup / drain-then-EOS oracle plus loom's data-race and deadlock detection.",
+  "Trusted: loom's scheduler and memory model; a Notify shim with tokio's documented semantics; Arc refcounts are std (destruction ordered by joins). Bounds: capacities 1-4, <=4 producers, <=3 sends each; models with a concurrent consumer are preemption-bounded (bound and any time cap per model are listed in the evidence), the producers-only models (producer-producer races, consumer drains after join) are explored with no bound and no cap.",
   "stateless model checking of the implementation (loom DPOR, preemption-bounded) with an in-harness reference oracle","DESIGN.md 4.20",
   replay="/verif/target/release/h_loom model <model> <pb> {path}")
 sim_note = "Trusted: tokio's paused clock and current-thread scheduler; select! branch order and rustrtc's random tags/TSNs are seeded (not enumerated); zero processing time; DTLS handshake left fault-free (C11 owns it). Bounds: fault count per history and workloads as listed in the evidence."
@@ -97,7 +97,7 @@ chk("C08","E4-enum","exploration",
   "exhaustive enumeration of a grammar-generated offer space on real PeerConnections with a text-level answer-relation oracle","DESIGN.md 4.8")
 
 chk("C17","E5-loopback","fault_enumeration",
-  "Crash points x terminating events x modes on real loopback PeerConnections in private runtimes (one worker process per batch, so task and socket-descriptor accounting is exact): quick = every API-observable phase boundary (9-11 per mode) x {close, drop, ICE stop, blocked sender then close} x acting side, each also judged from the peer's side (182 cases); thorough adds EVERY datagram boundary through a UDP relay, relay silence and ordered pairs of events (about 1280 cases). Oracle: terminal state + reason, Close exactly once then end-of-stream on every opened channel, pending and subsequent calls return, tasks and sockets released, second close harmless. Transport-level part (engine E2, simulator): peer ABORT / SHUTDOWN / SHUTDOWN-ACK sealed under the peer's DTLS keys at every datagram boundary of the association, default and small windows, both roles.",
+  "Crash points x terminating events x modes on real loopback PeerConnections in private runtimes (one worker process per batch, so task and socket-descriptor accounting is exact): quick = every API-observable phase boundary (9-11 per mode) x {close, drop, ICE stop, blocked sender then close} x acting side, each also judged from the peer's side (182 cases); thorough adds EVERY datagram boundary through a UDP relay, relay silence and ordered pairs of events (about 1280 cases). Oracle: terminal state + reason, Close exactly once then end-of-stream on every opened channel, pending and subsequent calls return, tasks and sockets released, second close harmless. Transport-level part (engine E2, simulator): peer ABORT / SHUTDOWN / SHUTDOWN-ACK sealed under the peer's DTLS keys, or the peer vanishing (Silent), at every datagram boundary of the association, both roles, under three loads (default window; small window; small window with two senders on two channels all parked on flow control when the event lands - the number of such cases is in the evidence).",
   "Real sockets and wall-clock grace periods in the PeerConnection part: every failure is re-run three times alone and reported only if it fails every time with the same kind (else FLAKY in the evidence); thread schedules are whatever the 2-worker runtime produces; quick does not wait for the 30 s DTLS handshake bound (counted, deferred to thorough).",
   "exhaustive crash-point x terminating-event x mode enumeration on real PeerConnections with task/fd accounting, plus exhaustive datagram-boundary enumeration of peer-initiated SCTP termination on the simulator","DESIGN.md 4.17")
 todo = {p: "check under construction in this round (DESIGN.md section 8 build order); not yet claimed" for p in props if p not in C}
